@@ -57,7 +57,8 @@ type reqCase struct {
 	Trusted  bool     `json:"trusted"`
 	Peer     string   `json:"peer"` // none | trusted | other_auth | no_auth
 	Mut      string   `json:"mut"`
-	Base     bool     `json:"base"` // the unmutated request was accepted by all three entry points
+	Base     bool     `json:"base"`    // the unmutated request was accepted by all three entry points
+	Changed  bool     `json:"changed"` // the mutation changed the wire encoding
 	NLayers  int      `json:"nlayers"`
 	Schemes  []int    `json:"schemes"`
 	// observed: accepted by VerifyRequestSignatures / WithContext / N3 ; status class of a refusal
@@ -74,10 +75,10 @@ type reqCase struct {
 // signing registers the witness for exactly (account of the verification script, signed data).
 type n3pub struct{ verif []byte }
 
-func (p n3pub) MaxEncodedSize() int      { return len(p.verif) }
-func (p n3pub) Encode(buf []byte) int    { return copy(buf, p.verif) }
-func (p *n3pub) Decode(b []byte) error   { p.verif = slices.Clone(b); return nil }
-func (p n3pub) Verify(_, _ []byte) bool  { return false }
+func (p n3pub) MaxEncodedSize() int     { return len(p.verif) }
+func (p n3pub) Encode(buf []byte) int   { return copy(buf, p.verif) }
+func (p *n3pub) Decode(b []byte) error  { p.verif = slices.Clone(b); return nil }
+func (p n3pub) Verify(_, _ []byte) bool { return false }
 
 type n3signer struct {
 	w     *tworld
@@ -85,7 +86,7 @@ type n3signer struct {
 	verif []byte
 }
 
-func (s n3signer) Scheme() neofscrypto.Scheme { return neofscrypto.N3 }
+func (s n3signer) Scheme() neofscrypto.Scheme    { return neofscrypto.N3 }
 func (s n3signer) Public() neofscrypto.PublicKey { return &n3pub{s.verif} }
 func (s n3signer) Sign(data []byte) ([]byte, error) {
 	s.w.n3reg[n3Key(hash.Hash160(s.verif), sha256.Sum256(data), slices.Concat(s.invoc, s.verif))] = true
@@ -401,11 +402,14 @@ func requestsMain(args []string) {
 		// the unmutated request first (on the same process state), then its mutation
 		p0, c0, n0, _ := accepted(req)
 		c.Base = p0 && c0 && n0
+		before, _ := proto.Marshal(req)
 		if g.p(60) {
 			c.Mut = pick(g, reqMuts)
 			if req = mutateReq(g, u, req, c.Mut); req == nil {
 				continue
 			}
+			after, _ := proto.Marshal(req)
+			c.Changed = string(before) != string(after)
 		} else if g.p(30) {
 			// exemption candidates: no verification header at all
 			c.Mut = "no_vh"
